@@ -52,6 +52,12 @@ HISTORY = {
     "map-put": "do def l = <<<'j' => y>>>; l in <<[0]>>; put(l, 'k', x); l end",
     "list-in-set": "do def i = [y]; def l = <<i>>; l in <<[0]>>; l end",
     "plus-assign": "do def l = [x]; l in <<[0]>>; l += [y]; l end",
+    # strings are changed in place too
+    "str-assign": "do def l = 'pq'; l in <<'zz'>>; l[0] = 'a'; [l, x, y] end",
+    "str-assign-key": "do def l = 'pq'; <<<'zz' => 1>>>[l, 0]; l[-1] = 'b'; "
+                      "[x, l, y] end",
+    "str-in-list": "do def i = 'pq'; def l = [i, x, y]; l in <<[0]>>; "
+                   "i in <<'0'>>; i[1] = 'b'; l end",
 }
 FRESH = {
     "elem-assign": "[x, y]", "append": "[x, y]", "insert_at": "[x, y]",
@@ -61,6 +67,8 @@ FRESH = {
     "map-assign": "<<<'j' => y, 'k' => x>>>",
     "map-put": "<<<'k' => x, 'j' => y>>>", "list-in-set": "<<[y]>>",
     "plus-assign": "[x, y]",
+    "str-assign": "['aq', x, y]", "str-assign-key": "[x, 'pb', y]",
+    "str-in-list": "['pb', x, y]",
 }
 PROBE = ("[h == f, f == h, h in <<f>>, f in <<h>>, <<h>> == <<f>>, "
          "length(<<h, f>>), <<<identity(h) => 1>>>[f, 'nf'], "
